@@ -379,6 +379,8 @@ class Interp:
                         return self.call_function(fn, bound)
             if base is None:
                 raise Raised("AttributeError", e)
+            if base is dict and m == "fromkeys":
+                return dict.fromkeys(*args)
             allowed = getattr(base, "_minipy_methods", None)
             if allowed is not None and m in allowed:
                 return getattr(base, m)(*args, **kw)
